@@ -242,7 +242,15 @@ func init() {
 				o := LGenOpts{MaxModes: 4, MaxRules: 5, Depth: 2, Small: r.Bool(), NonGreedy: r.Chance(1, 3)}
 				s := GenLSpec(r, o)
 				ds.kind = fmt.Sprintf("lexer modes=%d macros=%d", len(s.Modes), len(s.Macros))
-				ds.c.put("g.lox", []byte(s.Lox(r)))
+				if i == 2 {
+					// directed: mode names that are equal ignoring case, interleaved (any order that is not the
+					// byte order of the names, e.g. a case-folded sort over a map, shows between processes)
+					ds.kind = "lexer modes=5 directed (names equal ignoring case)"
+					ds.c.put("g.lox", []byte("@lexer\nA = 'a' @push_mode(Str)\nB = 'b' @push_mode(STR)\nC = 'c' @push_mode(aA)\nD = 'd' @push_mode(Aa)\n"+
+						"@mode Str {\nS1 = 's' @pop_mode\n}\n@mode aA {\nS3 = 'u' @pop_mode\nS5 = 'w' @push_mode(STR)\n}\n@mode STR {\nS2 = 't'+ @pop_mode\n}\n@mode Aa {\nS4 = 'v' 'v' @pop_mode\n}\n"))
+				} else {
+					ds.c.put("g.lox", []byte(s.Lox(r)))
+				}
 				ds.c.put("p.go", []byte(strings.ReplaceAll(lexPkgTemplate, "PKG", pkg)))
 			}
 			ds.old = ds.c.clone()
